@@ -44,6 +44,7 @@ fn run(a: &[String]) -> String {
         "transfer_sum" => scenarios::transfer_sum(&a[1]),
         "inspector_transparency" => scenarios::inspector_transparency(),
         "gas_inspector_differential" => scenarios::gas_inspector_differential(),
+        "journal_roundtrip" => scenarios::journal_roundtrip(),
         "selfdestruct_notify" => scenarios::selfdestruct_notify(),
         "bytecode_accessors" => scenarios::bytecode_accessors(),
         "block_state_kernel" => scenarios::block_state_kernel(),
